@@ -67,7 +67,7 @@ Plan gen_repair(uint64_t seed, const string &prop) {
       int n = (int)r.range(1, 4);
       for (int q = 0; q < n; q++) { Upd u; char kb[32]; snprintf(kb, sizeof kb, "rk%02d", (int)r.below(nkeys)); u.key = kb; u.del = r.chance(0.2); if (!u.del) { u.tag = tag++; u.fill = (int)r.below(2); u.len = r.chance(0.9) ? (uint32_t)r.range(10, 900) : (uint32_t)r.range(2000, 30000); } o.ups.push_back(u); }
     } else if (c < 75) o.kind = O_FLUSH;
-    else if (c < 95) { o.kind = O_COMPACT_RANGE; o.a = (int)r.below(4); }
+    else if (c < 95) { o.kind = O_COMPACT_RANGE; o.a = (int)r.below(r.chance(0.3) ? 6 : 4); }
     else o.kind = O_REOPEN;
     p.ops.push_back(o);
   }
